@@ -140,6 +140,22 @@ theorem c29_rarity_supply (r : Rarity) :
   ⟨SatSpec.supply_table_O r,
    (SatSpec.countBelow_eq_filter _ _).symm.trans (SatSpec.supply_table_O r)⟩
 
+/-- The general counting lemma behind the table: below `n` there are `⌈n/d⌉` multiples of `d`. -/
+theorem c29_count_multiples (d n : Nat) (hd : 0 < d) :
+    SatSpec.countBelow (fun h => h % d == 0) n = (n + d - 1) / d ∧
+    ((List.range n).filter (fun h => h % d == 0)).length = (n + d - 1) / d :=
+  ⟨SatSpec.countBelow_multiples d hd n,
+   (SatSpec.countBelow_eq_filter _ _).symm.trans (SatSpec.countBelow_multiples d hd n)⟩
+
+/-- … instantiated: the 6 930 000 subsidy-bearing heights by the class of their first sat
+(inclusion–exclusion over the multiples of 2016 / 210 000 / 1 260 000; lcm(2016, 210000) = 1260000). -/
+theorem c29_height_census (r : Rarity) :
+    SatSpec.countBelow (fun h => decide (SatSpec.rarity h 0 = r)) 6930000 =
+      match r with
+      | .common => 0 | .uncommon => 6926535 | .rare => 3432 | .epic => 27 | .legendary => 5
+      | .mythic => 1 :=
+  SatSpec.heights_table r
+
 /-- The charms ord reports for the `k`-th sat `s` of block `h` are those implied by `(s, h, k)`:
 the word is the specified one, `Sat::palindrome` does not overflow and is "the decimal digits read
 the same in both directions", and bit by bit: coin ⇔ `s` is a multiple of 10^8, nineball ⇔
